@@ -30,6 +30,14 @@ def specBinNextSmaller (lookup : Val) (keys : List Val) : Option Nat :=
 def specBinNextLarger (lookup : Val) (keys : List Val) : Option Nat :=
   (keys.findIdx? (fun k => bsLt k lookup == some false)).map (· + 1)
 
+/-- descending column: 1-based position of the FIRST key that is not greater than the lookup value -/
+def specBinDescNextSmaller (lookup : Val) (keys : List Val) : Option Nat :=
+  (keys.findIdx? (fun k => bsLt lookup k == some false)).map (· + 1)
+
+/-- descending column: 1-based position of the LAST key that is not smaller than the lookup value -/
+def specBinDescNextLarger (lookup : Val) (keys : List Val) : Option Nat :=
+  (keys.reverse.findIdx? (fun k => bsLt k lookup == some false)).map (fun i => keys.length - i)
+
 /-- every key is a non-blank value of the lookup value's kind -/
 def allEligible (lookup : Val) (keys : List Val) : Bool :=
   match lkind lookup with
